@@ -190,7 +190,14 @@ def _prune(facts_root, keep, max_keep=None):
                     key=lambda d: os.path.getmtime(os.path.join(facts_root, d)))
     except OSError:
         return
+    now = time.time()
     for d in ds[:-max_keep] if len(ds) > max_keep else []:
+        # never remove facts another (parallel) run may still be reading: only directories untouched for half an hour
+        try:
+            if now - os.path.getmtime(os.path.join(facts_root, d)) < 1800:
+                continue
+        except OSError:
+            continue
         shutil.rmtree(os.path.join(facts_root, d), ignore_errors=True)
 
 
